@@ -84,6 +84,7 @@ func main() {
 		explain = flag.String("explain", "", "replay file: re-derive that single obligation")
 		noEv    = flag.Bool("no-evidence", false, "do not write evidence (used by self tests on scratch copies)")
 		list    = flag.Bool("list", false, "print every obligation")
+		genAnc  = flag.Bool("gen-anchors", false, "record the fingerprints of the functions declared in -repo (reference tree) and exit")
 	)
 	flag.Parse()
 	if *verif == "" {
@@ -96,6 +97,12 @@ func main() {
 	seed := 0
 	if s := os.Getenv("VERIF_SEED"); s != "" {
 		seed, _ = strconv.Atoi(s)
+	}
+	anchorsPath = filepath.Join(*verif, "anchors.json")
+	if *genAnc {
+		anchorsPath = ""
+		genAnchors(load(*repo, "", "quick"), filepath.Join(*verif, "anchors.json"))
+		os.Exit(0)
 	}
 	explainKey := ""
 	if *explain != "" {
